@@ -5,6 +5,7 @@ import (
 	"encoding/json"
 	goerrors "errors"
 	"fmt"
+	"golang.org/x/text/unicode/norm"
 	"math"
 	"sort"
 	"strconv"
@@ -142,7 +143,8 @@ func unmarshalValue(span errors.Span, self interface{}) (*Value, *Interrupt) {
 			if err != nil {
 				return nil, err
 			}
-			fields[key] = value
+			// keys are strings of the language: normalised like every string value (`keys()` hands them out as such)
+			fields[norm.NFC.String(key)] = value
 		}
 		return NewValueObject(fields), nil
 	case []interface{}:
